@@ -104,6 +104,7 @@ def run_conelp(I, entry="conelp", kktsolver=None, storage="dense", starts="none"
         kw["dualstart"] = ds
     if solver is not None:
         kw["solver"] = solver
+        kw["options"] = dict(kw["options"], glpk={"msg_lev": "GLP_MSG_OFF"})
     l, q, s = dims["l"], dims["q"], dims["s"]
     if entry == "conelp":
         fn, args = solvers.conelp, (c, G, h, dims, A, b)
@@ -155,6 +156,9 @@ def run_conelp(I, entry="conelp", kktsolver=None, storage="dense", starts="none"
             cert, det = {"_": True}, {"alpha_error": repr(e)}
         cert["split_ok"] = bool(split_ok)
         cert["_"] = True
+        if solver == "glpk" and res["status"] in ("primal infeasible", "dual infeasible"):
+            # documented: with the GLPK option all entries of the result are None for these statuses
+            cert["glpk_all_none"] = all(v is None for k, v in res.items() if k != "status")
     trace = solverrec.finish_trace(events, res, exc, cert)
     info = {"status": None if res is None else res["status"], "exc": None if exc is None else repr(exc),
             "nf": rec.nf, "ns": rec.ns, "det": det, "res": res, "rec": rec}
